@@ -453,6 +453,15 @@ func c18Pool(seed int64) [][]byte {
 	}
 	// a document big enough that calls overlap for a long time
 	pool = append(pool, workload.BigDocs[18].Make(30000), workload.BigDocs[20].Make(30000), workload.BigDocs[10].Make(20000))
+	// strings beyond 64 KiB, alone and inside containers, short strings right after them: size-class
+	// thresholds for scratch buffers (seeded change C18r5-m1 pooled scratch above 64 KiB and kept
+	// using it)
+	big := workload.BigDocs[7].Make(70000)
+	esc := workload.BigDocs[10].Make(140000)
+	pool = append(pool, big, esc,
+		append(append([]byte(`["short",`), big...), `,"after\n"]`...),
+		append(append([]byte(`{"k\t":`), esc...), `,"z":"tail"}`...),
+		[]byte(`["after a big one","b\n"]`), []byte(`{"s":"x"}`))
 	return pool
 }
 
